@@ -806,11 +806,6 @@ func TestVerifC10Load(t *testing.T) {
 		}
 
 		parses, nullPaths := c10ParseYAML(plain)
-		if c10Known(c10KeyEnvPrefixNil) {
-			if n := c10DropStraySuffixKeys(env); n > 0 {
-				rec.Excluded(c10KeyEnvPrefixNil)
-			}
-		}
 		envOnNullPath := false
 		for k := range env {
 			for _, prefix := range []string{"MTX_PATHS_", "RTSP_PATHS_"} {
@@ -949,14 +944,6 @@ func TestVerifC10RegressShortEncryptedFile(t *testing.T) {
 	}
 }
 
-// found by this check, fixed by dbb62fd: an empty environment value for a parameter declared as pointer to a list
-// (the deprecated webrtcICEHostNAT1To1IPs / webrtcICEServers) made the environment loader call Set on a nil
-// pointer's target.
-// c10Known: listed as known by the driver, or (development / sensitivity runs) named in $VERIF_C10_ASSUME_KNOWN.
-func c10Known(key string) bool {
-	return kit.Known(key) || strings.Contains(os.Getenv("VERIF_C10_ASSUME_KNOWN"), key)
-}
-
 // c10OptionalListKeys: upper-case names of the top-level parameters declared as pointer to a list of scalars.
 func c10OptionalListKeys() map[string]bool {
 	out := map[string]bool{}
@@ -970,67 +957,6 @@ func c10OptionalListKeys() map[string]bool {
 		}
 	}
 	return out
-}
-
-// c10KeyEnvPrefixNil: an environment key that merely starts with the name of a pointer-typed parameter having a
-// custom environment unmarshaler makes the loader call UnmarshalEnv on the nil pointer.
-const c10KeyEnvPrefixNil = "c10-env-prefix-nil-unmarshaler"
-
-// c10UnmarshalerNames returns the upper-case names of the fields of rt whose pointer implements UnmarshalEnv;
-// onlyPointers restricts them to fields declared as pointers.
-func c10UnmarshalerNames(rt reflect.Type, onlyPointers bool) []string {
-	var out []string
-	for i := 0; i < rt.NumField(); i++ {
-		f := rt.Field(i)
-		n := cgJSONName(f)
-		if n == "" {
-			continue
-		}
-		ft := f.Type
-		isPtr := ft.Kind() == reflect.Pointer
-		if isPtr {
-			ft = ft.Elem()
-		}
-		if _, custom := reflect.New(ft).Interface().(interface{ UnmarshalEnv(string, string) error }); custom && (isPtr || !onlyPointers) {
-			out = append(out, strings.ToUpper(n))
-		}
-	}
-	return out
-}
-
-// c10DropStraySuffixKeys removes the assignments whose key extends the name of such a parameter (known finding
-// c10-env-prefix-nil-unmarshaler) and reports how many were removed.
-func c10DropStraySuffixKeys(env map[string]string) int {
-	global := c10UnmarshalerNames(reflect.TypeOf(Conf{}), true)
-	pd := c10UnmarshalerNames(reflect.TypeOf(Path{}), true)
-	inPath := c10UnmarshalerNames(reflect.TypeOf(Path{}), false) // optional values: every field is a pointer
-	n := 0
-	for k := range env {
-		var rest string
-		var names []string
-		switch {
-		case strings.HasPrefix(k, "MTX_PATHDEFAULTS_"), strings.HasPrefix(k, "RTSP_PATHDEFAULTS_"):
-			rest, names = k[strings.Index(k, "_PATHDEFAULTS_")+len("_PATHDEFAULTS_"):], pd
-		case strings.HasPrefix(k, "MTX_PATHS_"), strings.HasPrefix(k, "RTSP_PATHS_"):
-			rest, names = k[strings.Index(k, "_PATHS_")+len("_PATHS_"):], inPath
-		case strings.HasPrefix(k, "MTX_"), strings.HasPrefix(k, "RTSP_"):
-			rest, names = k[strings.Index(k, "_")+1:], global
-		default:
-			continue
-		}
-		if strings.Contains(k, "_PATHS_") { // <MAPKEY>_<PARAMETER...>: the loader cuts the map key at the first '_'
-			_, rest, _ = strings.Cut(rest, "_")
-		}
-		drop := false
-		for _, name := range names {
-			drop = drop || (strings.HasPrefix(rest, name) && len(rest) > len(name))
-		}
-		if drop {
-			delete(env, k)
-			n++
-		}
-	}
-	return n
 }
 
 // found by this check, fixed by dbb62fd: an empty environment value for a parameter declared as pointer to a list
@@ -1052,11 +978,9 @@ func TestVerifC10RegressEnvEmptyOptionalList(t *testing.T) {
 	}
 }
 
-// open finding c10-env-prefix-nil-unmarshaler (see c10KeyEnvPrefixNil)
+// found by this check, fixed by f53a1d9: an environment key that merely starts with the name of a pointer-typed
+// parameter having a custom environment unmarshaler made the loader call UnmarshalEnv on the nil pointer.
 func TestVerifC10RegressEnvPrefixNilUnmarshaler(t *testing.T) {
-	if c10Known(c10KeyEnvPrefixNil) {
-		t.Skip("listed as known finding " + c10KeyEnvPrefixNil)
-	}
 	for _, env := range []map[string]string{
 		{"MTX_RECORDDELETEAFTER_": "1"}, {"MTX_PROTOCOLS_0": "tcp"}, {"MTX_ENCRYPTIONX": "no"}, {"RTSP_AUTHMETHODS_0": "basic"}, {"MTX_RECORDFORMAT2": "fmp4"},
 		{"MTX_PATHDEFAULTS_PUBLISHIPS_0": "1.2.3.4"}, {"MTX_PATHDEFAULTS_PUBLISHUSER_": "x"}, {"MTX_PATHDEFAULTS_SOURCEPROTOCOL_X": "udp"},
